@@ -277,6 +277,43 @@ func CheckC06(s Script, tr Trace) (error, string) {
 			}
 		}
 	}
+	// One-at-a-time releases (the epilogue): a priority that has data waiting and holds fewer
+	// handlers than its share is served by every round that proceeds (the add-up step gives it
+	// share - actual, the base step divides among the priorities below their share and proceeds only
+	// when each of them got something); a round that does not proceed waits for one more release with
+	// one more vacant handler, and with H vacant handlers the add-up step applies. So H single
+	// releases cannot all pass it by.
+	{
+		streak := map[uint]int{}
+		var prev *Snap
+		for i := range tr.Snaps {
+			sn := &tr.Snaps[i]
+			if !sn.Epilogue || sn.Terminated || sn.Queued != 0 || s.Fault != nil {
+				prev = nil
+				streak = map[uint]int{}
+				continue
+			}
+			if prev != nil {
+				delivered := sumMap(prev.Pending) - sumMap(sn.Pending)
+				released := prev.Total + delivered - sn.Total
+				share := shareAt(s, *sn)
+				before := shareAt(s, *prev)
+				for p, sh := range share {
+					waiting := sn.Pending[p] > 0 && sn.Pending[p] == prev.Pending[p] && uint(sn.InFlight[p]) < sh && uint(prev.InFlight[p]) < before[p]
+					switch {
+					case !waiting:
+						streak[p] = 0
+					case released >= 1:
+						streak[p] += released
+					}
+					if uint(streak[p]) > s.H {
+						return fmt.Errorf("epilogue, after op #%d: priority %d has %d items waiting and holds %d of its %d handlers, yet the last %d single releases all went to other priorities (in flight %v, shares %v)", sn.Op, p, sn.Pending[p], sn.InFlight[p], sh, streak[p], sn.InFlight, share), zero
+					}
+				}
+			}
+			prev = sn
+		}
+	}
 	if tr.EpilogueStuck != "" {
 		pend := 0
 		if n := len(tr.Snaps); n > 0 {
